@@ -585,6 +585,28 @@ func buildScenarios(c *vlib.Ctx, haveOther bool) []Scenario {
 			}
 		}
 	}
+	// destination present and write-protected (0444, 0400, 0555): replaced like any other file
+	for _, op := range []string{opWriteFile, opCreate, opCopy, opReplace} {
+		for _, o := range []string{"readonly", "ro0400", "ro0555"} {
+			if q && o != "readonly" && op != opWriteFile && op != opReplace {
+				continue
+			}
+			add(op, o, "small", "same", "")
+			if !q {
+				add(op, o, "large", "same", "")
+				add(op, o, "empty", "other", "")
+				add(op, o, "small", "explicit", "")
+			}
+		}
+	}
+	add(opPut, "readonly", "small", "same", "k")
+	add(opFetch, "readonly", "small", "registry", "")
+	if !q {
+		add(opPut, "readonly", "large", "other", "k")
+		add(opPut, "ro0400", "small", "same", "k")
+		add(opFetch, "readonly", "small", "registry", "signed")
+		add(opFetch, "ro0555", "large", "registry", "")
+	}
 	// renameio.Symlink
 	for _, o := range []string{"absent", "symlink", "file"} {
 		add(opSymlink, o, "small", "same", "")
@@ -711,7 +733,7 @@ func buildScenarios(c *vlib.Ctx, haveOther bool) []Scenario {
 }
 
 func run(c *vlib.Ctx) {
-	c.Rule("one case = one run of a real portbase operation in a fresh directory tree with one fault: killed immediately before the k-th call of one system-call name (crash run), that call failing with EIO (failure run), or no fault (complete run); distinct_nontrivial = distinct (scenario, fault kind, system call, k) whose resulting directory tree was inspected after the run was validated against the scenario's trace")
+	c.Rule("one case = one run of a real portbase operation in a fresh directory tree with one fault: killed immediately before the k-th call of one system-call name (crash run), that call failing with EIO (failure run), or no fault (complete run); distinct_nontrivial = distinct (scenario, fault kind, system call, k) whose resulting directory tree was inspected after the run was validated against the scenario's trace; destination states: absent, empty, small, present with another mode (0640), present write-protected (0444, 0400, 0555); for symlinks absent / symlink / regular file")
 	c.Assume("crashes are process kills (strace SIGKILL injection before the call takes effect): data written but not yet synced survives; durability is decided on the system-call trace (fsync of the temp file after its last write and before the rename), not by losing data")
 	c.Assume("concurrent readers: every state between two system calls of the operation is one of the inspected crash states (the snapshot reads the destination like any reader), and the trace oracle shows that the destination inode is never opened for writing, written or truncated, so a reader holding the old file also never sees a fragment; reader interleavings are therefore not enumerated separately")
 	c.Assume("'new content' is compared by bytes / link target / directory tree; the mode of a destination that already shows the new content is not asserted (fetchFile sets 0755 after the rename); 'previous state' includes the mode")
